@@ -6,12 +6,16 @@ THEOREMS = [NS + t for t in """C05_unescape_escape C05_escape_charwise C05_escap
 C05_escape_null_iff C05_base64_enc_length C05_base64_dec_writes_in_bounds C05_base64_alphabet C05_base64_roundtrip C05_base64_encode C05_base64_encode_decode C05_base64_group C05_scan_render_attrs C05_next_attr_render C05_obj_attrs_roundtrip C05_obj_export_wellformed C05_obj_scan_render_roundtrip C05_obj_set_value_roundtrip C05_obj_type_value_roundtrip C05_obj_pci_busid_roundtrip C05_obj_bridge_pci_roundtrip C05_info_roundtrip C05_info_scan_render_roundtrip
 C05_num_roundtrip_unsigned C05_num_roundtrip_signed C05_num_roundtrip_hex C05_set_attr_roundtrip
 C05_TopoEquiv_refl C05_TopoEquiv_symm C05_TopoEquiv_trans C05_TopoEquiv_fields C05_TopoEquiv_implies_tree_sets
-C05_sanitize_idem""".split()]
+C05_sanitize_idem
+C05_tree_roundtrip C05_subtree_roundtrip C05_tree_children_preserved C05_tree_fixpoint C05_tree_norm_idem C05_tree_norm_valid
+C05_userdata_roundtrip C05_pagetype_roundtrip C05_tree_roundtrip_start_tags_as_bytes C05_tree_export_wellformed C05_tree_second_export C05_tree_second_export_same_attrs""".split()]
 CHECK_MODULES = ["Hw.Props.C05"]
 TRUSTED = [
     "PARTIAL: the start tag of <object> and the <info> elements are modelled and proved at the object level (exportAttrs / importAttrs, tied by "
-    "the OBJ lines); the assembly of the tree, the distances / memattr / cpukind / support / userdata / page_type elements of "
-    "hwloc/topology-xml.c and the libxml2 back end are exercised, not modelled: that export+import reproduces a whole topology is "
+    "the OBJ lines) and the assembly of the object tree (nesting, <info> / <page_type> / <userdata> child elements, the four child lists, the "
+    "parent-kind checks) at the tree level (exportTree / importTree on element trees, tied by the TREE lines, v3 format, nolibxml); the "
+    "distances / memattr / cpukind / support elements of hwloc/topology-xml.c, the v2-format flags, the nolibxml tag scanner below the "
+    "start tags and the libxml2 back end are exercised, not modelled: that export+import reproduces a whole topology is "
     "established on the generated topologies of each run (judged by the proved-equivalence relation TopoEquiv in the Lean driver)",
     "the un-escaper model reads the original buffer (the C code copies in place; reads are always at or after the cell being written)",
     "harness/dump.h + the canonical X lines of harness/h_xmlrt.c as a faithful reading of both topologies through the public API",
@@ -34,8 +38,12 @@ ASSUMPTIONS = [
 ]
 MODELLED = ("modelled at the object level (Hw.Io.XmlObj): the attribute list hwloc__xml_export_object_contents writes for one object (v3) and "
             "hwloc__xml_import_object_attr + the checks of hwloc__xml_import_object on it, plus <info> elements; tied by the OBJ lines of engine "
-            "xmlrt (scanned start tag = exportAttrs, object Valid, importAttrs = reloaded object); outside: page types, userdata elements, "
-            "children, Group/Bridge depth, floating point (pci_link_speed text), type filters, v2 rules, the Tile/Module/Cluster type spellings; "
+            "xmlrt (scanned start tag = exportAttrs, object Valid, importAttrs = reloaded object); modelled at the tree level (Hw.Io.XmlTree): "
+            "hwloc__xml_v2export_object + the child elements of hwloc__xml_export_object_contents (page_type, info, userdata plain/base64) and "
+            "the two child loops, parent-kind checks and per-kind child placement of hwloc__xml_import_object / hwloc_insert_object_by_parent / "
+            "hwloc__xml_import_pagetype / hwloc__xml_import_userdata, tied by the TREE lines (element tree of the real export = exportTree, "
+            "TreeValid, importTree = normTree = reloaded tree); outside: ignored objects, re-sorting of out-of-order children, "
+            "Group/Bridge depth, floating point (pci_link_speed text), type filters, v2 rules, the Tile/Module/Cluster type spellings; "
             "modelled: hwloc__nolibxml_export_escape_string, hwloc__nolibxml_import_next_attr (topology-xml-nolibxml.c 48-108, 547-587), "
             "hwloc_encode_to_base64 / hwloc_decode_from_base64 (base64.c), HWLOC_XML_CHAR_VALID / safestrdup, the printf/strto* pairs, "
             "fixup_sets' memory-child rule; exercised only: topology-xml.c object/distances/memattr/cpukind/support/userdata import+export, "
